@@ -1,12 +1,13 @@
 import LcModel.Prelude
 /-!
-# Filter layer — `BlockFiltersProcess::execute`
+# Filter layer — `BlockFiltersProcess::execute` and the cache update of `BlockFilterHashesProcess::execute`
 
 Which block filters the client acts on.  Hashes, filters and block hashes are ids; the filter
 hash function `calc_filter_hash(parent, filter)` is the parameter `H`; the verdict of the GCS
 match of each filter against the registered scripts is an input (`verdicts`); the filter hashes
 "the required number of proven peers agree on" after the finalized check point
-(`Peers::get_latest_block_filter_hashes`) are the input `latest`.
+(`Peers::get_latest_block_filter_hashes`) are the input `latest`.  The cached filter hashes
+inside a finalized interval are state (`St.cached`), written by `onCachedHashes`.
 -/
 namespace Filter
 
@@ -124,6 +125,101 @@ def oldExpectedFor (s : St) (latest : List Nat) (start : Nat) : M (Except Nat (N
       return .ok (parent, s.cached.drop (idx + 1))
   else expectedFor s latest start
 
+/-! ### `BlockFilterHashesProcess::execute`, the branch that fills the cache
+
+The cached filter hashes of the interval the filtered height is in (`start ≤ finalized number`,
+`cached number < start ≤ next cached number`).  The other branch (`update_latest_block_filter_hashes`,
+hashes after the finalized check point, kept per peer) is not modelled: `.other`.
+
+Numbers are naturals: `start + len` cannot overflow `u64` because `start` is at most the finalized
+check point number and the length is bounded by the frame size; every subtraction and every
+slice / index site of the code is a checked `M` step (`subU64`, `getIdx`). -/
+
+inductive HRes where
+  | ignored (why : Nat)
+  | banned (code : Nat)
+  /-- the cache was written (possibly with the same content); `ask = some n`: more hashes are
+  requested from block `n` (`end < next check point`), `none`: the filters are asked for -/
+  | updated (ask : Option Nat)
+  /-- the message does not take the cached branch -/
+  | other
+  deriving Repr, DecidableEq
+
+def HASHES_UNEXPECTED : Nat := 482
+
+/-- the test of the parent hash: `some r` = stop with `r` -/
+def parentCheck (s : St) (start parent cachedNumber cp : Nat) : M (Option HRes) := do
+  if start = cachedNumber + 1 then
+    if cp ≠ parent then return some (.banned HASHES_UNEXPECTED)
+    return none
+  else
+    let diff ← subU64 310 start cachedNumber
+    let idx ← subU64 311 diff 2
+    let h ← getIdx 307 s.cached idx
+    if h ≠ parent then return some (.ignored 3)
+    return none
+
+/-- the comparison with the next check point; `old = true`: the rule before 18445c9
+(`end_number > next`), `old = false`: the current rule (`end_number >= next`) -/
+def endCheck (old : Bool) (hashes : List Nat) (endNumber nextNumber nextCp : Nat) : M (Option HRes) := do
+  if (if old then endNumber > nextNumber else endNumber ≥ nextNumber) then
+    let diff ← subU64 312 endNumber nextNumber
+    let i0 ← subU64 313 hashes.length diff
+    let idx ← subU64 314 i0 1
+    let nh ← getIdx 308 hashes idx
+    if nextCp ≠ nh then return some (.banned HASHES_UNEXPECTED)
+    return none
+  else return none
+
+/-- the new cache: the cached hashes followed by the new ones they do not cover, up to the next
+check point -/
+def extendCache (cached hashes : List Nat) (startIndex endNumber nextNumber : Nat) : M (List Nat) := do
+  if endNumber > nextNumber then
+    let excess ← subU64 315 endNumber nextNumber
+    let newSize ← subU64 316 hashes.length excess
+    if startIndex < newSize then return cached ++ (hashes.take newSize).drop startIndex
+    return cached
+  else if startIndex < hashes.length then return cached ++ hashes.drop startIndex
+  else return cached
+
+def hashesCore (old : Bool) (s : St) (proved : Bool) (start parent : Nat) (hashes : List Nat) :
+    M (St × HRes) := do
+  -- a disconnected peer or a peer without a proved state
+  if !proved then return (s, .ignored 1)
+  let finNumber := s.interval * s.finIdx
+  let cachedNumber := s.interval * s.cachedIdx
+  let nextNumber := s.interval * (s.cachedIdx + 1)
+  if !(start ≤ finNumber && cachedNumber < start && start ≤ nextNumber) then return (s, .other)
+  let cachedLast := cachedNumber + s.cached.length
+  if start > cachedLast + 1 then return (s, .ignored 2)
+  -- `get_check_points(cached_check_point_index, 2)`, `[0]` and `[1]`
+  let cp ← getIdx 305 s.cps s.cachedIdx
+  let nextCp ← getIdx 306 s.cps (s.cachedIdx + 1)
+  match ← parentCheck s start parent cachedNumber cp with
+  | some r => return (s, r)
+  | none =>
+  let endNumber ← subU64 317 (start + hashes.length) 1
+  match ← endCheck old hashes endNumber nextNumber nextCp with
+  | some r => return (s, r)
+  | none =>
+  let offset ← subU64 318 start (cachedNumber + 1)
+  -- `cached_hashes[index_offset..]`
+  if offset > s.cached.length then throw (.index 309)
+  let tail := s.cached.drop offset
+  if (tail.zip hashes).any (fun p => p.1 ≠ p.2) then return (s, .ignored 4)
+  let new ← extendCache s.cached hashes tail.length endNumber nextNumber
+  return ({ s with cached := new }, .updated (if endNumber < nextNumber then some (endNumber + 1) else none))
+
+/-- `BlockFilterHashesProcess::execute` (cached branch) as of 18445c9 -/
+def onCachedHashes (s : St) (proved : Bool) (start parent : Nat) (hashes : List Nat) : M (St × HRes) :=
+  hashesCore false s proved start parent hashes
+
+/-- **the rule before 18445c9** (`end_number > next_cached_check_point_number`): hashes that end
+exactly at the next check point were not compared with it.  Kept for the witness
+`C06.old_rule_end_unchecked` only. -/
+def onCachedHashesOld (s : St) (proved : Bool) (start parent : Nat) (hashes : List Nat) : M (St × HRes) :=
+  hashesCore true s proved start parent hashes
+
 /-! ### driver -/
 
 structure D where
@@ -135,6 +231,13 @@ def tableH (t : List ((Nat × Nat) × Nat)) (p f : Nat) : Nat :=
   match t.find? (fun e => e.1 = (p, f)) with
   | some e => e.2
   | none => 0
+
+def showHRes : HRes → String
+  | .ignored _ => "ignored"
+  | .banned c => s!"banned {c}"
+  | .updated (some n) => s!"updated ask {n}"
+  | .updated none => "updated ask none"
+  | .other => "other"
 
 def showRes : Res → String
   | .ignored _ => "ignored"
@@ -149,7 +252,9 @@ def groups (sep : String) (ts : List String) : List (List String) :=
 /-- ops:
  `st interval minF scriptsEmpty finIdx cachedIdx | cps… | cached… | latest…`
  `h parent filter hash`
- `msg proved start | filters… | hashes… | verdicts(0/1)…` -/
+ `msg proved start | filters… | hashes… | verdicts(0/1)…`
+ `hashes proved start parent | hashes…`  (cached branch of `BlockFilterHashesProcess`; answer
+   `<ignored | banned c | updated ask <n|none> | other> cache <cachedIdx> <len> : <cached…>`) -/
 def stepLine (d : D) (line : String) : D × String :=
   match groups "|" (tokens line) with
   | ["st", a, b, c, e, f] :: cps :: cached :: latest :: _ =>
@@ -168,6 +273,15 @@ def stepLine (d : D) (line : String) : D × String :=
         | .ok (s', r) => ({ d with s := s' }, s!"{showRes r} minF {s'.minF} cache {s'.cachedIdx} {s'.cached.length}")
         | .error e => (d, showPanic e))
      | _, _, _, _ => (d, "bad-op"))
+  | ["hashes", pr, st, pa] :: hs :: _ =>
+    (match natsOf [pr, st, pa], natsOf hs with
+     | some [pr, st, pa], some hs =>
+       (match onCachedHashes d.s (pr = 1) st pa hs with
+        | .ok (s', r) =>
+          ({ d with s := s' },
+           s!"{showHRes r} cache {s'.cachedIdx} {s'.cached.length} : {" ".intercalate (s'.cached.map toString)}")
+        | .error e => (d, showPanic e))
+     | _, _ => (d, "bad-op"))
   | _ => (d, "bad-op")
 
 def initD : D := ⟨⟨2000, 0, true, 0, [], 0, []⟩, [], []⟩
